@@ -92,6 +92,8 @@ func (v GVal) Go() any {
 		return stringerT{v.S}
 	case "tostring":
 		return toStringT{v.S}
+	case "nilptr": // a typed nil pointer: not the nil interface, printed through the %v fallback
+		return (*structT)(nil)
 	case "textm": // corpus of the text formats (logfmt and colour) only: an encoding.TextMarshaler
 		return textMarshT{v.S}
 	case "level":
@@ -249,7 +251,7 @@ func (v GVal) Coq() string {
 		return "(VTime " + cStr(fixedTime.Add(time.Duration(v.I)).Format(time.RFC3339Nano)) + ")"
 	case "bytes":
 		return "(VBytes " + cStr(v.S) + ")"
-	case "struct", "map":
+	case "struct", "map", "nilptr":
 		return "(VFallback " + cStr(fmt.Sprintf("{{%v}}", v.Go())) + ")"
 	case "strs":
 		return "(VStrs " + strs(v.Strs) + ")"
@@ -422,7 +424,7 @@ func typedAttr(key string, v GVal) slog.Attr {
 // ---- generator ----
 var leafKinds = []string{"nil", "string", "stringer", "tostring", "level", "error", "bool", "int", "int8", "int16", "int32", "int64",
 	"uint", "uint8", "uint16", "uint32", "uint64", "float32", "float64", "complex64", "complex128", "duration", "time",
-	"bytes", "struct", "map", "strs", "bools", "ints", "int64s", "uint64s", "uint16s", "float64s", "durs", "times", "int8s", "int16s", "int32s", "uints", "uint32s"}
+	"bytes", "struct", "map", "nilptr", "strs", "bools", "ints", "int64s", "uint64s", "uint16s", "float64s", "durs", "times", "int8s", "int16s", "int32s", "uints", "uint32s"}
 
 var nastyRunes = []rune{0, 1, 7, 8, 9, 10, 11, 12, 13, 27, 31, ' ', '"', '\\', '/', '<', '>', '&', '=', 'a', 'Z', '~', 127, 0x80, 0xa0, 0xad,
 	0xe9, 0x378, 0x2028, 0x2029, 0xd7ff, 0xe000, 0xfffd, 0xfffe, 0xffff, 0x10000, 0x1f600, 0x10ffff}
@@ -772,7 +774,7 @@ func (rec EncRec) runes(set map[rune]bool) {
 			for _, s := range a.Val.Strs {
 				collectRunes(set, s)
 			}
-			if a.Val.Kind == "struct" || a.Val.Kind == "map" {
+			if a.Val.Kind == "struct" || a.Val.Kind == "map" || a.Val.Kind == "nilptr" {
 				collectRunes(set, fmt.Sprintf("{{%v}}", a.Val.Go()))
 			}
 			walk(a.Val.Items)
